@@ -18,7 +18,9 @@ Definition corr_validate (c : limits * list entry * Z) : bool :=
 (* the declarative predicate evaluated next to it: must agree wherever the theorem's hypotheses hold *)
 Definition corr_bomb (c : limits * list entry * Z) : bool :=
   let '(L, es, want) := c in
-  if limits_exact L && sizes_nonneg (files es) then (if bombb L es then 1 else 0) =? want else true.
+  (if limits_exact L && sizes_nonneg (files es) then (if bombb L es then 1 else 0) =? want else true)
+  && (if rl_repr (max_total_ratio L) && rl_repr (max_entry_ratio L) && sizes_nonneg (files es) && (want =? 1)
+      then bombb L es else true).
 
 (* Python's a / b, given as Some (m, e) (value m*2^e) or None for OverflowError *)
 Definition corr_fdiv (c : Z * Z * option (Z * Z)) : bool :=
